@@ -309,6 +309,28 @@ var c13Templates = []sim.Template{
 		}
 		return sc
 	}},
+	{Name: "rekey-with-a-recovery-code-instead-of-the-new-factors-code", F: func(s *sim.Sim) []*sim.Action {
+		// an account that already has the factor starts enrolling a new number / a new TOTP secret and
+		// answers the confirm step with one of its recovery codes: a recovery code replaces the second
+		// factor at login and removal, it proves nothing about the NEW number or secret
+		if len(s.Cfg.TwoFA) == 0 || s.Cfg.TwoFAEmail || !s.Cfg.Has("auth") {
+			return nil
+		}
+		k := s.Cfg.TwoFA[s.R.Intn(len(s.Cfg.TwoFA))]
+		v := findAcct(s, func(u *world.User) bool {
+			return u.Confirmed && ((k == "totp" && u.TOTPSecretKey != "" && u.SMSPhone == "") || (k == "sms" && u.SMSPhone != "" && u.TOTPSecretKey == ""))
+		})
+		if v < 0 {
+			return nil
+		}
+		sc := []*sim.Action{act("login", 0, v, "ok"), act(k+"_validate", 0, -9, "ok"), act("advance", 0, -9, "", "d", "31s")}
+		if k == "sms" {
+			sc = append(sc, act("sms_setup", 0, -9, "fresh"), act("sms_confirm", 0, -9, "recovery"), act("sms_confirm", 0, -9, "recovery_other"), act("sms_confirm", 0, -9, "wrong"))
+		} else {
+			sc = append(sc, act("totp_setup", 0, -9, ""), act("totp_confirm", 0, -9, "recovery"), act("totp_confirm", 0, -9, "othertotp"), act("totp_confirm", 0, -9, "wrong"))
+		}
+		return sc
+	}},
 	{Name: "enrol-totp", F: func(s *sim.Sim) []*sim.Action {
 		if !s.Cfg.Has2FA("totp") || s.Cfg.TwoFAEmail || !s.Cfg.Has("auth") {
 			return nil
